@@ -158,6 +158,9 @@ def tuple_reduce(ctx, shape, group, func):
     if not isinstance(x, ctx.da.DimArray):
         return ctx.done(ctx.eq(ctx.scalar(x), ctx.scalar(y)), [ctx.observe(x), ctx.observe(y)])
     rest = [i for i in range(len(dims)) if i not in group]
+    if func in ('cumsum', 'cumprod', 'diff'):
+        exp = Ref(list(y.dims), [ax.values.tolist() for ax in y.axes], ctx.flat(y.values.tolist()))
+        return ctx.done(ctx.AND(same(ctx, x, exp), y.dims[0] == ','.join(names)), [ctx.observe(x), ctx.observe(y)])
     exp = Ref([dims[i] for i in rest], [ref.labels[i] for i in rest], ctx.flat(y.values.tolist()))
     return ctx.done(ctx.AND(same(ctx, x, exp), tuple(y.dims) == tuple(dims[i] for i in rest)), [ctx.observe(x), ctx.observe(y)])
 
@@ -205,7 +208,9 @@ def templates():
     add('reshape-notranspose-ok', 'reshape_case', cost=0.3, shape=[2, 3, 2], target=[[0, 1], [2]], transpose=False)
     add('reshape-notranspose-refused', 'reshape_case', cost=0.3, shape=[2, 3, 2], target=[[1, 0], [2]], transpose=False)
     add('reshape-mixed-kinds', 'reshape_case', cost=0.3, shape=[2, 2], target=[[1, 0]], lkinds=['i', 'U'])
-    for func in ('mean', 'sum', 'median', 'max'):
+    for func in ('mean', 'sum', 'median', 'max', 'argmax', 'argmin', 'cumsum'):
         for sh, group in (([2, 3, 2], [0, 2]), ([2, 3, 2], [2, 0]), ([2, 3, 2], [1, 0]), ([2, 2], [1, 0]), ([2, 1, 2, 3], [3, 0]), ([2, 2, 2, 2], [0, 3, 2])):
+            if func.startswith('arg') and len(sh) == 4:
+                continue
             add('tuple-%s-%s-g%s' % (func, 'x'.join(map(str, sh)), ''.join(map(str, group))), 'tuple_reduce', cost=0.3, shape=sh, group=group, func=func)
     return ts
